@@ -258,7 +258,10 @@ Inductive rd_pc :=
 (* a Ready that carries an incoming snapshot *)
 | RdSnapSaving (r : ready) (fl : bool)       (* inside SaveSnap (persistRaftState); fl: the snap file is written *)
 | RdSnapSaved (r : ready)                    (* snap file and WAL record written, the hard state not yet *)
-| RdSnapApply (r : ready) (k : nat).         (* after the save: 0 raftDone signalled, 1 ApplySnapshot done, 2 WAL released *)
+| RdSnapApply (r : ready) (k : nat)          (* after the save: 0 raftDone signalled, 1 ApplySnapshot done, 2 WAL released *)
+| RdSnapCut (r : ready) (k : nat) (idx : N). (* the Save of the hard state behind an incoming snapshot's record cut the segment: the records (and the
+                                                hard state: the record is valid from here on) are flushed into the old segment;
+                                                0 the new segment is not created yet, 1 it is, 2 the Save has returned *)
 
 Inductive ap_pc :=
 | ApIdle
@@ -576,8 +579,15 @@ Definition step (c : config) (s : state) (ev : event) : result state :=
       let s1 := save_records s r in
       (* a Save without entries and without a hard state returns before it could cut *)
       if negb ((0 <? r_n r) || r_hs r) then Err R_GUARD
-      (* not followed: the segment is cut between the record of an incoming snapshot and the hard state that makes it valid *)
-      else if 0 <? r_snap r then Err R_OUT
+      else if 0 <? r_snap r then
+        (* the Save of the hard state that makes an incoming snapshot's record valid: the cut flushes it into the old
+           segment; the name of the new segment continues the snapshot's index (wal.SaveSnapshot has moved enti) *)
+        if negb (idx =? r_snap r + 1) then Err R_ARG
+        else if negb (match app s with ApSnapPrepared j => j =? r_snap r | _ => false end) then Err R_GUARD
+        else if negb (forallb (fun b => b_snap b =? 0) (queue s)) then Err R_GUARD
+        else Ok (s1 <| set_segs := validated (r_snap r) (segs s1) |>
+                    <| set_unflushed := 0%nat |> <| set_unsynced := if opt_fsync c then unsynced s1 else 0%nat |>
+                    <| set_rdp := RdSnapCut r 0 idx |>)
       else if negb (idx =? last_entry (all_recs (segs s1)) + 1) then Err R_ARG
       else Ok (s1 <| set_unflushed := 0%nat |> <| set_unsynced := if opt_fsync c then unsynced s1 else 0%nat |>
                   <| set_rdp := RdCutting r p idx |>)
@@ -591,6 +601,12 @@ Definition step (c : config) (s : state) (ev : event) : result state :=
                  <| set_unflushed := 0%nat |>
                  <| set_unsynced := if opt_fsync c then (unsynced s + (if wstate s then 1 else 0))%nat else 0%nat |>
                  <| set_rdp := RdSaving r p true |>)
+    | RdSnapCut r O idx' =>
+      if negb (idx =? idx') then Err R_ARG
+      else Ok (s <| set_segs := segs s ++ [mkSeg idx (if wstate s then [RState (wcommit s)] else [])] |>
+                 <| set_unflushed := 0%nat |>
+                 <| set_unsynced := if opt_fsync c then (unsynced s + (if wstate s then 1 else 0))%nat else 0%nat |>
+                 <| set_rdp := RdSnapCut r 1 idx |>)
     | _ => Err R_PC
     end
   | EvRdSaveAfter =>
@@ -602,6 +618,13 @@ Definition step (c : config) (s : state) (ev : event) : result state :=
       let s1 := if must_sync then s0 <| set_unflushed := 0%nat |> else s0 in
       let s2 := if must_sync && fsync then s1 <| set_unsynced := 0%nat |> else s1 in
       Ok (s2 <| set_rdp := RdBegun r true p |>)
+    | RdSnapCut r 1 idx =>
+      (* the records went into the old segment before the cut; the end of the Save flushes the new one when it has to *)
+      let must_sync := (0 <? r_n r) || (r_hs r && r_tv r) in
+      let fsync := negb (opt_fsync c) || (r_hs r && r_tv r) in
+      let s1 := if must_sync then s <| set_unflushed := 0%nat |> else s in
+      let s2 := if must_sync && fsync then s1 <| set_unsynced := 0%nat |> else s1 in
+      Ok (s2 <| set_rdp := RdSnapCut r 2 idx |>)
     | _ => Err R_PC
     end
   | EvRdPublish n lastp sn =>
@@ -656,6 +679,12 @@ Definition step (c : config) (s : state) (ev : event) : result state :=
       else if negb (forallb (fun b => b_snap b =? 0) (queue s)) then Err R_GUARD
       else Ok (s <| set_segs := validated i (segs s) |> <| set_unflushed := 0%nat |> <| set_unsynced := 0%nat |>
                  <| set_rd_done := i |> <| set_rdp := RdSnapApply r 0 |>)
+    | RdSnapCut r 2 _ =>
+      (* the record was made valid by the cut *)
+      if negb (i =? r_snap r) then Err R_ARG
+      else if negb (match app s with ApSnapPrepared j => j =? i | _ => false end) then Err R_GUARD
+      else if negb (forallb (fun b => b_snap b =? 0) (queue s)) then Err R_GUARD
+      else Ok (s <| set_unflushed := 0%nat |> <| set_unsynced := 0%nat |> <| set_rd_done := i |> <| set_rdp := RdSnapApply r 0 |>)
     | _ => Err R_PC
     end
   | EvRdApplySnapAfter i =>
@@ -1091,6 +1120,8 @@ Definition recover_state_powerloss (s : state) (j : nat) : result (list N) :=
 Definition inflight (s : state) : list event :=
   (match rdp s with
    | RdCutting _ _ idx => [EvCutAfter idx]
+   | RdSnapCut _ O idx => [EvCutAfter idx]
+   | RdSnapCut r 2 _ => [EvRdApplySnapBefore (r_snap r)]
    | RdSnapSaving r false => [EvRdSnapFile (r_snap r)]
    | RdSnapSaving r true => [EvRdSaveSnapAfter (r_snap r)]
    | RdBegun r true true => if 0 <? r_snap r then [EvRdApplySnapBefore (r_snap r)] else []
